@@ -50,6 +50,26 @@ def run_case(c):
                 if not r["ok"]:
                     r.update(evaluations=n, case={"prop": "C06", "kind": "check", "inputs": {"m": canon(bytes(m))}})
                     return r
+        # frames whose header length field (bytes 2-3, either byte order) equals their real length, and repeats of one unknown code
+        for ln in list(range(4, 400)) + [1024, 4096]:
+            for order in ("little", "big"):
+                m = bytearray(rnd.randrange(256) for _ in range(ln))
+                m[0:2] = b"\xfe\xf0"
+                m[2:4] = ln.to_bytes(2, order)
+                r = check(bytes(m))
+                n += 1
+                if not r["ok"]:
+                    r.update(evaluations=n, case={"prop": "C06", "kind": "check", "inputs": {"m": canon(bytes(m))}})
+                    return r
+        for rep in range(3):
+            m = bytearray(165)
+            m[0:2] = b"\xfe\xf0"
+            m[74:76] = b"\xab\xcd"
+            r = check(bytes(m))
+            n += 1
+            if not r["ok"]:
+                r.update(evaluations=n, detail=f"unknown model code seen for the {rep + 1}. time", case={"prop": "C06", "kind": "check", "inputs": {"m": canon(bytes(m))}})
+                return r
         codes = range(65536) if i["codes"] >= 65536 else [rnd.randrange(65536) for _ in range(i["codes"])] + [0, 0xFFFF, 0x0C03, 0x0E00]
         for code in codes:
             ln = (165, 168, 159)[code % 3]
